@@ -12,16 +12,18 @@ def check(ctx, rep):
         "every downstream requires every upstream (orientation, full product, no early exit); the job leaves "
         "the member set; nothing else is removed. R18.3 documented set terms: keep_only: members & set(R); "
         "keep_only_between: (starts ? downstream(starts) : members) & (ends ? upstream(ends) : members), "
-        "starts / ends added back under their own keep flag. R18.6 an argument that may be a generator is run through at most once before it has been copied into a collection.")
+        "starts / ends added back under their own keep flag. R18.6 an argument that may be a generator is run through at most once before it has been copied into a collection. R18.7 a job is never asked whether it is iterable before it is recognised as a job (a nested scheduler is a collection of jobs: it would be taken apart). R18.q2 also (= R17.2): the reverse links the surgery reads are rebuilt from the requirements whenever they are asked for - the builder returns early only on the say-so of its caller, never because of a flag or fingerprint it keeps (the surgery edits the member set directly).")
     rep.declined = ["'every path through j is re-linked and no other ordering appears' as a statement about "
                     "transitive closures over all DAGs"]
     rep.trusted = ["T8 set algebra"]
     graphrules.surgery(ctx, rep, "R18.1", "R18.2", "R18.3")
     graphrules.queries(ctx, rep, "R18.q1", "R18.q2", "R18.q3", "R18.q4", "R18.q5", "R18.q6")
     from . import common
+    common.relation_builder(ctx, rep, "R18.q2")
     p, r = ctx.prog, ctx.roles
     funcs = [p.supplier(r.sched, n) for n in ('bypass_and_remove', 'keep_only', 'keep_only_between', 'remove')] + \
         [p.supplier(r.jobbase, 'requires')]      # the surgery re-links through requires()
     common.job_truthiness(ctx, rep, "R18.4", funcs)
+    common.job_iterability(ctx, rep, "R18.7", funcs)
     common.no_state_across_calls(ctx, rep, "R18.5", funcs)
     common.params_consumed_once(ctx, rep, "R18.6", [ctx.prog.supplier(ctx.roles.sched, n) for n in ("keep_only", "keep_only_between", "bypass_and_remove", "update")])
